@@ -27,9 +27,9 @@ type Exp struct {
 	KindOnly bool // only V.K is demanded
 }
 
-func expV(v Val) Exp  { return Exp{Def: true, V: v} }
-func expThrow() Exp   { return Exp{Def: true, Throw: true} }
-func undefined() Exp  { return Exp{} }
+func expV(v Val) Exp       { return Exp{Def: true, V: v} }
+func expThrow() Exp        { return Exp{Def: true, Throw: true} }
+func undefined() Exp       { return Exp{} }
 func expKind(k string) Exp { return Exp{Def: true, KindOnly: true, V: Val{K: k}} }
 
 // truthy is the reference truthiness; ok=false where the documents leave it open
